@@ -51,14 +51,9 @@ func runHist(casesPath, obsPath string) {
 		lib.Fatal("%v", err)
 	}
 	res := lib.AsResources(p1)
-	w, err := lib.NewWriter(obsPath)
-	if err != nil {
-		lib.Fatal("%v", err)
-	}
+	w := newLineWriter(obsPath)
 	// the first record describes the process: the built-in and experimental tables at start
-	if err := w.Write(map[string]any{"id": "h:base", "kind": "base", "base0": keysOf(base0), "exper0": exper0}); err != nil {
-		lib.Fatal("%v", err)
-	}
+	w.Write(map[string]any{"id": "h:base", "kind": "base", "base0": keysOf(base0), "exper0": exper0})
 	lib.ParallelMap(len(cases), runtime.NumCPU(), func(i int) {
 		hc := cases[i]
 		rec := map[string]any{"id": hc.ID, "kind": "hist", "calls": hc.Calls}
@@ -80,13 +75,9 @@ func runHist(casesPath, obsPath string) {
 			}
 		}
 		rec["obs"] = obs
-		if err := w.Write(rec); err != nil {
-			lib.Fatal("%v", err)
-		}
+		w.Write(rec)
 	})
-	if err := w.Close(); err != nil {
-		lib.Fatal("%v", err)
-	}
+	w.Close()
 }
 
 func replayCall(call ccall, base0 tableSnap, forest *lib.Forest, res []lib.Resource) (map[string]any, *fhirpath.Expression) {
